@@ -709,6 +709,44 @@ def l0_optimizer(n, sd, maxin=200):
         return res
 
 
+def l0_always(n, sd, maxin=60):
+    """L0 for the always-succeeds test (AlwaysSucceeds.tla, transcription of node.CheckAlwaysSucceeds): every rule the
+    transcribed test accepts succeeds from every offset of every scenario input (PegSem!Eval), over the well-formed
+    scenarios of the families core and act; two unsound variants (! and the first operand of a sequence taken to
+    succeed) must be refuted and some rule must be accepted (the model has teeth and is not vacuous)."""
+    key = os.path.join(CACHE, f"l0always_{n}_{sd}_{maxin}_{harness_hash()}.json")
+    with Lock("l0always"):
+        if os.path.exists(key):
+            with open(key) as fh:
+                return json.load(fh)
+        scs = []
+        for fam in ("core", "act"):
+            scs += [s for s in generate(fam, n, sd)[0] if not s.get("norun")]
+        work = scratch("verif-l0always-")
+        scen = os.path.join(work, "scen.ndjson")
+        with open(scen, "w") as fh:
+            for sc in scs:
+                fh.write(json.dumps(sc) + "\n")
+        env = dict(MC_SCEN=scen, MC_MAXIN=maxin)
+        r = run_tlc("MCAlways", "MC_Always_code.cfg", env=env, timeout=3600, check=False)
+        if r["rc"] != 0 or "No error has been found" not in r["out"]:
+            raise Infra("L0 AlwaysSucceeds model check failed (specification-level, not a verdict about the code):\n" + r["out"][-3000:])
+        outs = {v: run_tlc("MCAlways", f"MC_Always_{v}.cfg", env=env, timeout=3600, check=False)["out"] for v in ("nottrue", "seqany", "predtrue", "vacuity")}
+        res = dict(scenarios=len(scs), states=r["distinct"], transitions=r["states"], wall=round(r["wall"], 1),
+                   invariants=["Sound", "VariantOff", "Lemmas (ShortcutIdle, AcceptedNullable)"],
+                   variant_not_true_refuted="Invariant Sound is violated" in outs["nottrue"],
+                   variant_seq_any_refuted="Invariant Sound is violated" in outs["seqany"],
+                   variant_pred_true_refuted="Invariant Sound is violated" in outs["predtrue"],
+                   some_rule_accepted="Invariant NoneAccepted is violated" in outs["vacuity"])
+        if not (res["variant_not_true_refuted"] and res["variant_seq_any_refuted"] and res["some_rule_accepted"]):
+            raise Infra("L0 AlwaysSucceeds: an unsound variant was not refuted or no rule is accepted (vacuous model run): " + json.dumps(res))
+        shutil.rmtree(work, ignore_errors=True)
+        os.makedirs(os.path.dirname(key), exist_ok=True)
+        with open(key, "w") as fh:
+            json.dump(res, fh)
+        return res
+
+
 def sched_pipeline(n, sd, nrandom):
     """L3 for C09: gate-hook replay of TLC-generated interleavings of the two analysis goroutines."""
     key = os.path.join(cache_dir(), f"sched_{n}_{sd}_{nrandom}_{harness_hash()}.json")
